@@ -1,6 +1,7 @@
 package internal
 
 import (
+	"bytes"
 	"io"
 	"unicode/utf8"
 )
@@ -37,10 +38,12 @@ type Payload interface {
 type Buffers [][]byte
 
 func (b Buffers) CheckEncoding(enabled bool, opcode uint8) bool {
-	for i, _ := range b {
-		if !CheckEncoding(enabled, opcode, b[i]) {
-			return false
-		}
+	if len(b) == 1 {
+		return CheckEncoding(enabled, opcode, b[0])
+	}
+	if enabled && (opcode == 1 || opcode == 8) {
+		// a code point may be split across slices: validate the whole payload
+		return utf8.Valid(bytes.Join(b, nil))
 	}
 	return true
 }
